@@ -4,8 +4,8 @@ import os
 from vlib import core, enumgen
 
 PROP = "C14"
-LEAN_MODULES = ["ShootVerif.Props.C14"]
-USES_FACTS = False
+LEAN_MODULES = ["ShootVerif.Props.C14", "ShootVerif.Props.C14Facts"]
+USES_FACTS = True
 DRIVER = "shootmodel_enum"
 enumgen.regen_enum_facts()          # lean/ShootVerif/Gen/EnumFacts.lean follows the current source (Props/C04Facts.lean)
 
@@ -21,7 +21,7 @@ MANIFEST = dict(
     design="5/C14")
 
 SHAPED = (["kind:" + k for k in enumgen.KIND_NAMES] + ["k:%d" % k for k in range(1, 9)] +
-          ["zero", "nozero", "composite", "composite", "nocomposite", "gaps", "gaps"])
+          ["zero", "nozero", "composite", "composite", "nocomposite", "gaps", "gaps", "distractor", "distractor", "distractor"])
 
 
 GEN = [None]
@@ -55,8 +55,8 @@ def make_cases(ctx, cid, en, mode=None, flags=None):
     gx = [enumgen.generated_sexp(en, decl)] if rerun else []
     main = {"id": cid, "en": en, "decl": decl, "files": files0, "codec": codec, "edit": edit, "mode": lay["mode"] + ("+spread" if lay["spread"] and lay["mode"].startswith("file") else ""),
             "runs": runs, "rerun": rerun,
-            "oracle": {".": enumgen.oracle_c14(en, decl, hi, negs)},
-            "sexp": enumgen.case_sexp(cid, "c14", en, gx + [["hi", str(hi)], ["neg"] + [str(v) for v in negs]]), "cmd": "shoot " + " ".join(run["args"]) + (" ; edit(%s) ; again" % edit if hist else ""),
+            "oracle": {".": enumgen.oracle_c14(en, decl, hi, negs, codec)},
+            "sexp": enumgen.case_sexp(cid, "c14", en, gx + [["flags"] + codec, ["hi", str(hi)], ["neg"] + [str(v) for v in negs]]), "cmd": "shoot " + " ".join(run["args"]) + (" ; edit(%s) ; again" % edit if hist else ""),
             "hi": hi, "kind": "main"}
     raw = {"id": cid + "r", "en": en, "decl": decl, "sexp": enumgen.case_sexp(cid + "r", "c14raw", en, gx),
            "cmd": "shoot enum -bit -type=%s && go build" % T, "kind": "raw"}
@@ -157,6 +157,7 @@ def run(ctx, obl):
             res.hist("rerun", str(main["rerun"]))
             res.hist("codec-flags-with-bit", "+".join(main["codec"]) or "none")
             res.hist("edit-history", main["edit"])
+            res.hist("generated-header-file", str(bool(main["en"].get("genheader"))))
             vals = [v for _, v in main["decl"]]
             res.hist("flags", str(sum(1 for v in vals if v and v & (v - 1) == 0)))
             res.hist("composites", str(sum(1 for v in vals if v and v & (v - 1) != 0)))
@@ -179,7 +180,10 @@ def run(ctx, obl):
                 "declared bits, with arbitrary overlapping values, and signed enums with a flag on the sign bit (negative values, `_max` negative); "
                 "bit-flag enums generated from the grammar (1-8 single-bit flags, contiguous `1 << iota` runs or scattered decimal/hex/shift "
                 "literals in any order, optional zero constant, 0-3 declared composites `A | B`, all 10 integer kinds, prefixed or plain names); "
-                "-bit is combined with no codec flag, -json, -text, -sql or all three; in the file layouts with constants spread over several files "
+                "String() is evaluated as a CALL HISTORY - ascending sweep, the same sweep in descending call order (every union before 0 and the declared "
+                "values), through MarshalText / json.Marshal / Value when the flags add them, ascending again - and must be a function of the value; "
+                "in packages whose constants are spread over several files one constant-bearing file may carry another generator's `// Code generated … DO NOT "
+                "EDIT.` header; -bit is combined with no codec flag, -json, -text, -sql or all three; in the file layouts with constants spread over several files "
                 "60%% of the cases are a run / hand edit of ANOTHER file (a constant added, a value changed, a constant removed) / identical run history, "
                 "expectation = the single-run model of the edited sources; ONE `shoot enum -bit` run generates T alone (-type=T), after a companion type (-type=Comp,T), or by -file= (constants spread over several "
                 "files, optionally a companion declared first), in 35%% of the cases run a second time over the package that holds the first run's output; the emitted file is compiled as it is (finding: undefined `_<t>_map`) and, with the defined table "
